@@ -1,4 +1,5 @@
-import GateryModel.C16.Live2
+import GateryModel.C16.FifoLive
+import GateryModel.C16.Bits
 /-!
 # C16 — property theorems
 
@@ -17,7 +18,7 @@ cycle); `Good S T ok` says: for every environment that keeps the interface law o
 that was not accepted/committed) and the output keeps the interface law. `T` is the list specification
 (`Trans.idT` = identity for the 1:1 stages, `extSpec`/`redSpec` for the width changers, characterised below).
 Proofs: `C16/Lemmas.lean` (generic refinement arguments + composition), `Stages.lean`, `FifoProof.lean`, `Width.lean`,
-`Chains.lean`, `Live.lean`, `Live2.lean`.
+`Chains.lean`, `Live.lean`, `Live2.lean`, `FifoLive.lean`, `Bits.lean`.
 
 Not in this file (see the check's evidence / report): the tie of each model to the C++ is by correspondence
 (harness/c16.cpp | Driver/C16.lean); the FIFO's pointer/memory storage is abstracted to a list (that is property C15).
@@ -44,6 +45,10 @@ theorem spec_extend {α β δ : Type} (ratio : Nat) (dataOf : α → δ) (mk : L
       = groups.map fun p => mk ((p.1 ++ [p.2]).map dataOf) p.2 :=
   Trans.run_chunkT_full ratio _ groups tail hg ht
 
+/-- the concrete data path of the width changers: part `i` of the words packed by `extendWidth` is word `i` again -/
+theorem extend_then_reduce_data (w : Nat) (words : List Nat) (i : Nat) (h : i < words.length) :
+    partWord w i (packWords w words) = words[i] % 2 ^ w := partWord_packWords w words i h
+
 /-- specifications compose like functions -/
 theorem spec_comp {α β γ : Type} (T : Trans α β) (U : Trans β γ) (l : List α) : (T.comp U).run l = U.run (T.run l) :=
   Trans.run_comp T U l
@@ -66,7 +71,7 @@ theorem stall_preserves_sequence {α : Type} (env : Env α) (t : Nat) :
 /-- … and the output keeps the interface law provided the stall condition does not rise while a beat is offered and not taken -/
 theorem stall_preserves {α : Type} : Good (stall (α := α)) Trans.idT stallOk := good_stall
 
-/-- Without that side condition `stall` does **not** keep the law on its output (utils.h:728: `valid(out) = '0'` whenever
+/-- Without that side condition `stall` does **not** keep the law on its output (utils.h:688: `valid(out) = '0'` whenever
     stalled): a witness environment — one beat offered and held, consumer not ready, stall raised in cycle 1. -/
 theorem stall_breaks_law_when_stalled_mid_offer :
     ∃ env : Env Nat, (stall (α := Nat)).LawIn env ∧ ¬ (stall (α := Nat)).LawOut env := by
@@ -115,12 +120,16 @@ eventually taken) then every accepted beat is eventually emitted — with `Good.
 fair consumer of strength `up` itself. -/
 
 theorem regDownstream_live {α : Type} (d0 : α) : Live (regDownstream d0) Trans.idT okTrue false true := live_regDownstream d0
-/-- the blocking register needs `dn = true` (utils.h:33 "valid will not become high while ready is low") -/
+/-- the blocking register needs `dn = true` (utils.h:34 "valid will not become high while ready is low") -/
 theorem regDownstreamBlocking_live {α : Type} (d0 : α) : Live (regDownstreamBlocking d0) Trans.idT okTrue true true :=
   live_regDownstreamBlocking d0
 theorem regReady_live {α : Type} (d0 : α) : Live (regReady d0) Trans.idT okTrue false true := live_regReady d0
 theorem regDecouple_live {α : Type} (d0 : α) : Live (regDecouple d0) Trans.idT okTrue false true := live_regDecouple d0
 theorem delay_live {α : Type} (d0 : α) (n : Nat) : Live (delay d0 (n+1)) Trans.idT okTrue false true := live_delay d0 n
+/-- the stream FIFO: a stored beat becomes visible after at most `lat-1` cycles and is then delivered; a full FIFO gets free
+    again once a pop has travelled through the latency pipe -/
+theorem fifo_live {α : Type} (d0 : α) (depth lat : Nat) (ft : Bool) (hok : FifoOk depth lat ft) :
+    Live (fifo d0 depth lat ft) Trans.idT okTrue false true := live_fifo d0 depth lat ft hok
 theorem stall_live {α : Type} (dn up : Bool) : Live (stall (α := α)) Trans.idT (stallFair up) dn up := live_stall dn up
 theorem extendWidth_live {α β δ : Type} (ratio : Nat) (d0 : δ) (dataOf : α → δ) (mk : List δ → α → β) (hr : 0 < ratio) (b : Bool) :
     Live (extendWidth ratio d0 dataOf mk) (extSpec ratio dataOf mk) okTrue b b := live_extendWidth ratio d0 dataOf mk hr b
@@ -154,9 +163,9 @@ example : ∃ T ok, GoodChain (chainOf [.dec, .fifo 4 2 false, .ext 2 8, .dly 3,
   ⟨_, _, .cons (good_regDecouple _) (.cons (good_fifo _ 4 2 false ⟨by decide, by decide⟩)
     (.cons (good_extendWidth 2 _ _ _ (by decide)) (.cons (good_delay _ 3) (.cons (good_reduceWidth 2 _ (by decide)) .nil))))⟩
 
-/-- a live chain `delay 2 | regDecouple | extendWidth 2 | regDownstream | reduceWidth 2` -/
-example : ∃ T ok, LiveChain (chainOf [.dly 2, .dec, .ext 2 8, .ds, .red 2 8]) T ok false true :=
-  ⟨_, _, .cons (good_delay _ 2) (live_delay _ 1) (.cons (good_regDecouple _) (live_regDecouple _)
+/-- a live chain `delay 2 | fifo(8, latency 3) | extendWidth 2 | regDownstream | reduceWidth 2` -/
+example : ∃ T ok, LiveChain (chainOf [.dly 2, .fifo 8 3 false, .ext 2 8, .ds, .red 2 8]) T ok false true :=
+  ⟨_, _, .cons (good_delay _ 2) (live_delay _ 1) (.cons (good_fifo _ 8 3 false ⟨by decide, by decide⟩) (live_fifo _ 8 3 false ⟨by decide, by decide⟩)
     (.cons (good_extendWidth 2 _ _ _ (by decide)) (live_extendWidth 2 _ _ _ (by decide) true)
       (.cons (good_regDownstream _) (live_regDownstream _)
         (.cons (good_reduceWidth 2 _ (by decide)) (live_reduceWidth 2 _ (by decide)) (.nil false) (Or.inr rfl))
